@@ -9,7 +9,7 @@ RULE = (
     "pairs); (a) the clause list returned by sat.cnf is evaluated for ALL assignments of its variables "
     "bit-parallel, projected onto node variables and compared with the set of consistent valuations; (b) "
     "sat.solve under random partial assumptions is compared with that set; (c) bundled netlists with full "
-    "input assignments vs reference simulation.  non-trivial = >=1 multi-input gate and >=2 free signals; "
+    "input assignments vs reference simulation; (d) circuits of 15..90 nodes (deep chains, hubs, 17..40-operand gates) and single gates with 2..70 operands, decided by simulation over the free signals plus a bit-parallel DPLL on the clause list.  non-trivial = >=1 multi-input gate and >=2 free signals; "
     "distinct = canonical circuit + assumption lists"
 )
 BUDGET = {
